@@ -89,6 +89,9 @@ type FileOpts struct {
 	Running     bool // running status
 	Escapes     bool // F7 packets and F0 without terminating F7
 	UnknownMeta bool
+	// LongTracks > 0: one track in LongTracks has 1000..6000 events (short payloads, many on the
+	// same tick) instead of at most MaxEvents
+	LongTracks int
 }
 
 // AllFreedoms is the C02 configuration.
@@ -165,6 +168,11 @@ func Event(t *rapid.T, o FileOpts, running byte, maxDelta uint32) smfref.Event {
 // TrackEvents draws the events of one valid track, terminated by end-of-track.
 func TrackEvents(t *rapid.T, o FileOpts, maxDelta uint32) []smfref.Event {
 	n := rapid.IntRange(0, o.MaxEvents).Draw(t, "nEvents")
+	if o.LongTracks > 0 && rapid.IntRange(0, o.LongTracks-1).Draw(t, "longTrack?") == 0 {
+		n = rapid.IntRange(1000, 6000).Draw(t, "nEventsLong")
+		o.MaxPayload = min(o.MaxPayload, 40)
+		maxDelta = min(maxDelta, 3)
+	}
 	var evs []smfref.Event
 	var running byte
 	for i := 0; i < n; i++ {
